@@ -35,7 +35,7 @@ def gen(rng, tier):
     n = 120 if tier == "quick" else 1500
     cases = []
     for k in range(n):
-        inst, info = GI.rand_instance(rng, n_cons=rng.randint(1, 3), n_removed=rng.randint(0, 2))
+        inst, info = GI.rand_instance(rng, n_cons=rng.randint(1, 3), n_removed=rng.randint(0, 2), rich=True)
         st = GI.rand_state_for(rng, info)
         ops = rand_ops(rng, info["cids"], rng.randint(1, 8))
         extra = [GI.rand_state_for(rng, info) for _ in range(rng.randint(1, 3))]
